@@ -344,6 +344,32 @@ def sync_level(ctx, ir0, feat, base0, i):
             break
 
 
+def check_class_merge(ctx, base0, i):
+    """parse.class_(tree, merge_inner_function='__init__') twice on ONE tree: equal results, the tree as it was."""
+    import random
+
+    from doctrans import parse
+
+    from ..gen_py import gen_class_with_init
+
+    c = gen_class_with_init(random.Random(i * 7919 + ctx.seed))
+    node = ast.parse(c.src).body[0]
+    before = ast.dump(node)
+    try:
+        a = parse.class_(node, merge_inner_function="__init__")
+        mid = ast.dump(node)
+        b = parse.class_(node, merge_inner_function="__init__")
+    except Exception:
+        return
+    ctx.event("parse_twice:class_with_init_merged")
+    if mid != before:
+        ctx.report(dict(base0, kind="class", field="tree_mutated", tag="by_parse_with_merge", expected="", observed=""),
+                   {"ir": {}, "kind": "class", "class_src": c.src, "class_merge": i})
+    elif digest_ir(a) != digest_ir(b):
+        ctx.report(dict(base0, kind="class", field="reparse_differs", tag="with_merge", expected=digest_ir(a)[:300], observed=digest_ir(b)[:300]),
+                   {"ir": {}, "kind": "class", "class_src": c.src, "class_merge": i})
+
+
 def digest_ir(ir):
     return digest(ir)
 
@@ -406,6 +432,7 @@ def run(ctx):
             if i % 3 == 0:
                 run_sequences(ctx, ir0, feat, pairs, ALT_OPTS, dict(base0, alt_opts=True), body, call=call, flip=not bool((i // 4) % 2))
             check_parsers(ctx, ir0, feat, base0)
+            check_class_merge(ctx, base0, i * ctx.shard[1] + ctx.shard[0])
             if feat["n_params"] > 0 and i % 2 == 0:
                 sync_level(ctx, ir0, feat, base0, i // 2)
     finally:
@@ -422,7 +449,9 @@ def replay(payload):
     ir0 = ir_from_jsonable(rp["ir"])
     if rp.get("body"):
         attach_body(ir0, rp.get("body_variant", 0))
-    if "sync_level" in rp:
+    if "class_merge" in rp:
+        check_class_merge(ctx, {"op": OP}, rp["class_merge"])
+    elif "sync_level" in rp:
         sync_level(ctx, ir0, rp["feat"], {"op": OP}, rp["sync_level"])
     elif "seq" in rp:
         seq = tuple(rp["seq"])
